@@ -357,7 +357,7 @@ func (te *tableEngine) PlayerReserve(joinPlayer JoinPlayer) error {
 		// ReBuy
 		playerState := te.table.State.PlayerStates[targetPlayerIdx]
 		playerState.Bankroll += joinPlayer.RedeemChips
-		if err := te.sm.UpdatePlayerHasChips(playerState.PlayerID, true); err != nil {
+		if err := te.sm.UpdatePlayerHasChips(playerState.PlayerID, playerState.Bankroll > 0); err != nil {
 			return err
 		}
 
